@@ -14,7 +14,7 @@ def I(name, entry, cfg, bound, tiers=Q, st=False, **kw):
 LISTENERS = ['client', 'nonsasl', 'bind', 'sm']
 TLS = ['absent', 'optional', 'required']
 S2 = ['no SASL2', 'SASL2 without bind2', 'SASL2 with bind2 (1 feature)']
-QUICK_FEATURES = {(0, 1): 1, (1, 1): 2, (2, 1): 0, (1, 0): 1, (2, 0): 2}      # (tls, local ssl) -> SASL2 case that also runs in the quick tier
+QUICK_FEATURES = {(0, 1): 1, (1, 1): 2, (2, 1): 0, (1, 0): 1}      # (tls, local ssl) -> SASL2 case that also runs in the quick tier
 INST = (
     [I('start_%s' % LISTENERS[k], 'start', 1 | 16 | k << 10, 'socket started (handleStart); previous listener: ' + LISTENERS[k], tiers=Q if k == 1 else T) for k in range(4)]
     + [I('start_starttls', 'start', 1 | 16 | 512, 'socket started while the STARTTLS step of the previous connection still listens', st=True, tiers=T)]
@@ -25,7 +25,7 @@ INST = (
          tiers=Q if QUICK_FEATURES.get((t, l)) == k else T) for t in (0, 1, 2) for l in (0, 1) for k in (0, 1, 2)]
     + [I('stream_pre%d_el%d%s' % (pv, ev, '_st' if st else ''), 'stream', 1 | 2 | pv << 3 | st << 9 | (ev | 2 | 4) << 10,
          'handleStream(<stream:stream id from%s/>), values <= 2..3 arbitrary units; stored stream version %s' % (' version' if ev else '', 'non-empty' if pv else 'empty'),
-         st=bool(st), tiers=Q if (pv, ev, st) in ((0, 0, 0), (0, 1, 0), (0, 0, 1)) else T) for pv in (0, 1) for ev in (0, 1) for st in (0, 1)]
+         st=bool(st), tiers=Q if (pv, ev, st) in ((0, 0, 0), (0, 0, 1)) else T) for pv in (0, 1) for ev in (0, 1) for st in (0, 1)]
     + [I('stream_noattr', 'stream', 1 | 2, 'handleStream(<stream:stream/>) without any attribute, nothing stored yet', tiers=T)]
     + [I('packet_starttls_ns%d' % n, 'packet_starttls', 1 | 16 | 512 | n << 10,
          'handlePacketReceived(el), el = arbitrary tag <= 8 units in %s (covers <proceed/>, <failure/>, anything else)' % ('urn:ietf:params:xml:ns:xmpp-tls' if n else 'an arbitrary namespace <= 2 units'),
@@ -35,7 +35,7 @@ INST = (
          tiers=Q if n == 0 else T, timeout_s=400) for n in (0, 1, 2, 3)]
     + [I('packet_iq_t%d' % t, 'packet_client', 1 | 16 | (1 | t << 2) << 10,
          'handlePacketReceived(<iq xmlns=jabber:client type=%s id from/>), id/from <= 2 arbitrary units, from present or not' % ['get', 'set', 'result', 'error', '<2 arbitrary units>', '<absent>'][t],
-         tiers=Q if t in (0, 2) else T) for t in range(6)]
+         tiers=Q if t == 0 else T) for t in range(6)]
     + [I('packet_features_tls%d_ssl%d_o%d' % (t, l, o), 'packet_client', l | 16 | (2 | t << 2 | o << 5) << 10,
          'handlePacketReceived(<stream:features>) as a DOM tree parsed by the real QXmppStreamFeatures::parse: starttls %s, local TLS support %s, %s' % (TLS[t], bool(l), 'mechanisms(1 arbitrary) + auth + bind + sm offered' if o else 'nothing else offered'),
          tiers=Q if (t, l, o) in ((0, 1, 7), (2, 1, 7), (1, 0, 7)) else T) for t in (0, 1, 2) for l in (0, 1) for o in (0, 7)]
@@ -51,7 +51,7 @@ SPEC = dict(
         'single inductive steps: ONE event of the remote end applied to an ARBITRARY private state of QXmppOutgoingClient that satisfies INV == (TLS required and link not encrypted => listener is the client itself or the STARTTLS step, and the client is not authenticated); every step proves INV again, so the claims hold along every server script, of any length, as long as the link stays unencrypted',
         'events: socket started; socket disconnected; stream header with/without version, id, from (values <= 3 arbitrary UTF-16 units); stream features built through the real setters (STARTTLS absent/optional/required x SASL2 absent / without bind2 / with one bind2 feature x 0..1 SASL mechanism of <= 2 units x arbitrary legacy-auth / bind / session / sm / csi modes) and as a DOM tree through the real parser (starttls absent/present/required, with nothing else or with mechanisms + auth + bind + sm); answer to STARTTLS = arbitrary tag <= 8 units in the TLS or an arbitrary namespace; while the client listens: any child-less element with tag <= 8 units in the stream / client / sm / an arbitrary namespace, IQs of every type with id/from <= 2 units',
         'client configuration: TLSRequired; useSASLAuthentication / useSasl2Authentication / useNonSASLAuthentication / legacy mechanism preference arbitrary; user, domain, password, resource <= 2 arbitrary units; local TLS support (QSslSocket::supportsSsl) both values (case split)',
-        'quick tier = a subset of the case combinations (every event class and every STARTTLS-offer x local-TLS combination at least once); thorough tier = all combinations',
+        'quick tier = 14 of the 60 case combinations (every event class; STARTTLS absent / optional / required with local TLS support, optional without); thorough tier = all 60 combinations',
         'socket log capacity 4 writes per step (asserted as model limit)',
     ],
     assumptions=[
